@@ -471,7 +471,13 @@ where
 
         let this = self.clone();
 
+        #[cfg(pilota_verif)]
+        let verif_gate = crate::verif_gate::region("mods", mods.len());
+
         mods.par_iter().for_each_with(this, |this, (p, def_ids)| {
+            #[cfg(pilota_verif)]
+            let _verif_turn = verif_gate.enter(&p.iter().map(|s| s.to_string()).join("::"));
+
             let mut stream = pkgs.entry(p.clone()).or_default();
 
             let span = tracing::span!(tracing::Level::TRACE, "write_mod", path = ?p);
